@@ -951,6 +951,64 @@ func vRunC08(s *vtraffic.Scenario, plan *vPlan, c *vlib.Case) (out vC08Outcome) 
 	return
 }
 
+// TestVerifC08Large: real-size captures (>= 120000 packets in the scenario, so
+// that the untouched literal threshold of 100000 packets creates snapshots),
+// imported capture by capture in a generated order with generated restarts.
+func TestVerifC08Large(t *testing.T) {
+	vSetup()
+	open := vOpen()
+	vlib.Check(t, "C08", func(rt *rapid.T, c *vlib.Case) {
+		cfg := vtraffic.LargeConfig(rapid.IntRange(120000, 250000).Draw(rt, "packets"))
+		cfg.AvoidSeqWrapDisorder = open[vFindingSeqWrap]
+		cfg.AvoidCutAfterSecondFin = open[vFindingSnapComplete]
+		s := vtraffic.Gen(cfg).Draw(rt, "traffic")
+		c.Count("excluded_known", s.Steered+s.SteeredCuts)
+		plan := &vPlan{Interval: 100_000}
+		for i := range s.Captures {
+			plan.Arrival = append(plan.Arrival, i)
+		}
+		if len(plan.Arrival) > 1 && rapid.Bool().Draw(rt, "out of order") {
+			plan.Arrival = rapid.Permutation(plan.Arrival).Draw(rt, "arrival order")
+		}
+		for _, a := range plan.Arrival {
+			plan.Batches = append(plan.Batches, []int{a})
+		}
+		if open[vFindingStaleSplit] && vHoleFilledLater(s, plan) {
+			c.Count("excluded_known", 1)
+			sort.Ints(plan.Arrival)
+			for i, a := range plan.Arrival {
+				plan.Batches[i] = []int{a}
+			}
+		}
+		vRestarts(rt, plan)
+		c.Render(func() any {
+			st := s.Stats()
+			caps := []string{}
+			for _, cp := range s.Captures {
+				caps = append(caps, fmt.Sprintf("%s: %d packets", cp.Name, len(cp.Packets)))
+			}
+			return map[string]any{"stats": st, "captures": caps, "plan": plan}
+		})
+		st := s.Stats()
+		c.Count("packets", st.Packets)
+		c.Count("conversations", st.Conversations)
+		chrono := sort.IntsAreSorted(plan.Arrival)
+		c.LabelIf(!chrono, "arrival-out-of-order")
+		c.Labelf("captures:%d", len(s.Captures))
+		out := vRunC08(s, plan, c)
+		if out.msg != "" {
+			rt.Fatalf("%s", out.msg)
+		}
+		c.LabelIf(out.snapshotCreated, "snapshot-created")
+		c.LabelIf(out.snapshotUsed, "snapshot-used")
+		c.LabelIf(out.restarts > 0, "restart-between-batches")
+		c.LabelIf(out.continued, "flow-continues-in-later-import")
+		if out.continued && (out.snapshotUsed || !chrono) {
+			c.NonTrivial(s.Fingerprint() + fmt.Sprint(plan))
+		}
+	})
+}
+
 func TestVerifC08Fixed(t *testing.T) {
 	vSetup()
 	vlib.Fixed(t, "C08", vC08FixedNames, vFixedCase)
